@@ -323,6 +323,20 @@ func vChooseCorpusCase(r *vx.Run, docs []vDoc, families []string) vCase {
 			t.apply(e.kind, e.pos, i)
 		}
 		return vCase{fmt.Sprintf("clusters:%s:%d edits:start%d", d.Key, k, x), t.bytes(), d.Key}
+	case "oneline":
+		// the whole document on ONE physical line (a minified file, a JSON string), alone or followed
+		// by a second, normally wrapped document
+		d := docs[r.Choose(len(docs), "doc")]
+		kind := r.Choose(3, "what follows")
+		one := strings.Join(strings.Fields(string(d.Bytes)), " ")
+		in := one
+		switch kind {
+		case 1:
+			in = one + "\n" + vOOVBlock(1, 4, 3) + string(docs[(r.Choices[len(r.Choices)-2]+1)%len(docs)].Bytes)
+		case 2:
+			in = vOOVBlock(1, 3, 1) + one + " " + vOOV(7) + " " + one + "\n"
+		}
+		return vCase{fmt.Sprintf("oneline:%s:%s", d.Key, []string{"alone", "then another document", "twice on one line"}[kind]), []byte(in), d.Key}
 	case "hyphenwall":
 		// a text of 70..260 KB in which EVERY line ends in a word that is continued on the next line
 		// (wherever a large input may be cut into pieces, the cut follows a hyphenated line break),
